@@ -62,8 +62,8 @@ name: str_splice.refused
 define: VP=str, U_SPLICE, U_NONEMPTY, U_REFUSED, U_POSCNT
 src: str.c, obj.c
 enforce: spif_str_splice
-backend: sat,z3
-timeout: 200
+backend: kissat,sat
+timeout: 600
 flags: --slice-formula
 */
 /*@unit
@@ -71,8 +71,8 @@ name: str_splice.safety
 define: VP=str, VSTR_INST=0, VSTR_OWN_MEMCPY, VSTR_OWN_REALLOC, U_SPLICE, U_NONEMPTY, U_ACCEPTED, U_POSCNT, U_ENS_CORE
 src: str.c, obj.c
 enforce: spif_str_splice
-backend: sat,z3
-timeout: 400
+backend: kissat,sat
+timeout: 600
 flags: --slice-formula
 */
 /*@unit
@@ -80,8 +80,8 @@ name: str_splice.term
 define: VP=str, VSTR_INST=2, VSTR_OWN_MEMCPY, VSTR_OWN_REALLOC, U_SPLICE, U_NONEMPTY, U_ACCEPTED, U_POSCNT, U_ENS_TERM
 src: str.c, obj.c
 enforce: spif_str_splice
-backend: sat,z3
-timeout: 300
+backend: kissat,sat
+timeout: 600
 flags: --slice-formula
 checks_off: --bounds-check --pointer-check --pointer-overflow-check --signed-overflow-check --conversion-check --div-by-zero-check --undefined-shift-check --pointer-primitive-check
 */
@@ -90,8 +90,8 @@ name: str_splice.head
 define: VP=str, VSTR_INST=8, VSTR_OWN_MEMCPY, VSTR_OWN_REALLOC, U_SPLICE, U_NONEMPTY, U_ACCEPTED, U_POSCNT, U_VIEW_HEAD
 src: str.c, obj.c
 enforce: spif_str_splice
-backend: sat,z3
-timeout: 300
+backend: kissat,sat
+timeout: 600
 flags: --slice-formula
 checks_off: --bounds-check --pointer-check --pointer-overflow-check --signed-overflow-check --conversion-check --div-by-zero-check --undefined-shift-check --pointer-primitive-check
 */
@@ -100,18 +100,18 @@ name: str_splice.ins
 define: VP=str, VSTR_INST=24, VSTR_OWN_MEMCPY, VSTR_OWN_REALLOC, U_SPLICE, U_NONEMPTY, U_ACCEPTED, U_POSCNT, U_VIEW_INS
 src: str.c, obj.c
 enforce: spif_str_splice
-backend: sat,z3
-timeout: 300
+backend: kissat,sat
+timeout: 600
 flags: --slice-formula
 checks_off: --bounds-check --pointer-check --pointer-overflow-check --signed-overflow-check --conversion-check --div-by-zero-check --undefined-shift-check --pointer-primitive-check
 */
 /*@unit
 name: str_splice.tail
-define: VP=str, VCAP=255, VSTR_INST=63, U_ENS_CORE, U_ENS_TERM, U_VIEW_HEAD, U_VIEW_INS, VSTR_OWN_MEMCPY, VSTR_OWN_REALLOC, U_SPLICE, U_NONEMPTY, U_ACCEPTED, U_POSCNT, U_VIEW_TAIL
+define: VP=str, VSTR_INST=32, VSTR_OWN_MEMCPY, VSTR_OWN_REALLOC, U_SPLICE, U_NONEMPTY, U_ACCEPTED, U_POSCNT, U_VIEW_TAIL
 src: str.c, obj.c
 enforce: spif_str_splice
-backend: sat,z3
-timeout: 300
+backend: kissat,sat
+timeout: 600
 flags: --slice-formula
 checks_off: --bounds-check --pointer-check --pointer-overflow-check --signed-overflow-check --conversion-check --div-by-zero-check --undefined-shift-check --pointer-primitive-check
 */
@@ -120,8 +120,8 @@ name: str_splice.negcnt
 define: VP=str, VSTR_INST=0, VSTR_OWN_MEMCPY, VSTR_OWN_REALLOC, U_SPLICE, U_NONEMPTY, U_NEGCNT, U_ENS_ACCEPT
 src: str.c, obj.c
 enforce: spif_str_splice
-backend: sat,z3
-timeout: 300
+backend: kissat,sat
+timeout: 600
 flags: --slice-formula
 checks_off: --bounds-check --pointer-check --pointer-overflow-check --signed-overflow-check --conversion-check --div-by-zero-check --undefined-shift-check --pointer-primitive-check
 */
@@ -139,8 +139,8 @@ name: str_splice_from_ptr.refused
 define: VP=str, U_SPLICE_FROM_PTR, U_NONEMPTY, U_REFUSED, U_POSCNT
 src: str.c, obj.c
 enforce: spif_str_splice_from_ptr
-backend: sat,z3
-timeout: 200
+backend: kissat,sat
+timeout: 600
 flags: --slice-formula
 */
 /*@unit
@@ -148,8 +148,8 @@ name: str_splice_from_ptr.safety
 define: VP=str, VSTR_INST=0, VSTR_OWN_MEMCPY, VSTR_OWN_REALLOC, U_SPLICE_FROM_PTR, U_NONEMPTY, U_ACCEPTED, U_POSCNT, U_ENS_CORE
 src: str.c, obj.c
 enforce: spif_str_splice_from_ptr
-backend: sat,z3
-timeout: 400
+backend: kissat,sat
+timeout: 600
 flags: --slice-formula
 */
 /*@unit
@@ -157,8 +157,8 @@ name: str_splice_from_ptr.term
 define: VP=str, VSTR_INST=2, VSTR_OWN_MEMCPY, VSTR_OWN_REALLOC, U_SPLICE_FROM_PTR, U_NONEMPTY, U_ACCEPTED, U_POSCNT, U_ENS_TERM
 src: str.c, obj.c
 enforce: spif_str_splice_from_ptr
-backend: sat,z3
-timeout: 300
+backend: kissat,sat
+timeout: 600
 flags: --slice-formula
 checks_off: --bounds-check --pointer-check --pointer-overflow-check --signed-overflow-check --conversion-check --div-by-zero-check --undefined-shift-check --pointer-primitive-check
 */
@@ -167,8 +167,8 @@ name: str_splice_from_ptr.head
 define: VP=str, VSTR_INST=8, VSTR_OWN_MEMCPY, VSTR_OWN_REALLOC, U_SPLICE_FROM_PTR, U_NONEMPTY, U_ACCEPTED, U_POSCNT, U_VIEW_HEAD
 src: str.c, obj.c
 enforce: spif_str_splice_from_ptr
-backend: sat,z3
-timeout: 300
+backend: kissat,sat
+timeout: 600
 flags: --slice-formula
 checks_off: --bounds-check --pointer-check --pointer-overflow-check --signed-overflow-check --conversion-check --div-by-zero-check --undefined-shift-check --pointer-primitive-check
 */
@@ -177,8 +177,8 @@ name: str_splice_from_ptr.ins
 define: VP=str, VSTR_INST=24, VSTR_OWN_MEMCPY, VSTR_OWN_REALLOC, U_SPLICE_FROM_PTR, U_NONEMPTY, U_ACCEPTED, U_POSCNT, U_VIEW_INS
 src: str.c, obj.c
 enforce: spif_str_splice_from_ptr
-backend: sat,z3
-timeout: 300
+backend: kissat,sat
+timeout: 600
 flags: --slice-formula
 checks_off: --bounds-check --pointer-check --pointer-overflow-check --signed-overflow-check --conversion-check --div-by-zero-check --undefined-shift-check --pointer-primitive-check
 */
@@ -187,8 +187,8 @@ name: str_splice_from_ptr.tail
 define: VP=str, VSTR_INST=32, VSTR_OWN_MEMCPY, VSTR_OWN_REALLOC, U_SPLICE_FROM_PTR, U_NONEMPTY, U_ACCEPTED, U_POSCNT, U_VIEW_TAIL
 src: str.c, obj.c
 enforce: spif_str_splice_from_ptr
-backend: sat,z3
-timeout: 300
+backend: kissat,sat
+timeout: 600
 flags: --slice-formula
 checks_off: --bounds-check --pointer-check --pointer-overflow-check --signed-overflow-check --conversion-check --div-by-zero-check --undefined-shift-check --pointer-primitive-check
 */
@@ -197,8 +197,8 @@ name: str_splice_from_ptr.negcnt
 define: VP=str, VSTR_INST=0, VSTR_OWN_MEMCPY, VSTR_OWN_REALLOC, U_SPLICE_FROM_PTR, U_NONEMPTY, U_NEGCNT, U_ENS_ACCEPT
 src: str.c, obj.c
 enforce: spif_str_splice_from_ptr
-backend: sat,z3
-timeout: 300
+backend: kissat,sat
+timeout: 600
 flags: --slice-formula
 checks_off: --bounds-check --pointer-check --pointer-overflow-check --signed-overflow-check --conversion-check --div-by-zero-check --undefined-shift-check --pointer-primitive-check
 */
@@ -252,8 +252,8 @@ name: ustr_splice.refused
 define: VP=ustr, U_SPLICE, U_NONEMPTY, U_REFUSED, U_POSCNT
 src: ustr.c, obj.c
 enforce: spif_ustr_splice
-backend: sat,z3
-timeout: 200
+backend: kissat,sat
+timeout: 600
 flags: --slice-formula
 */
 /*@unit
@@ -261,8 +261,8 @@ name: ustr_splice.safety
 define: VP=ustr, VSTR_INST=0, VSTR_OWN_MEMCPY, VSTR_OWN_REALLOC, U_SPLICE, U_NONEMPTY, U_ACCEPTED, U_POSCNT, U_ENS_CORE
 src: ustr.c, obj.c
 enforce: spif_ustr_splice
-backend: sat,z3
-timeout: 400
+backend: kissat,sat
+timeout: 600
 flags: --slice-formula
 */
 /*@unit
@@ -270,8 +270,8 @@ name: ustr_splice.term
 define: VP=ustr, VSTR_INST=2, VSTR_OWN_MEMCPY, VSTR_OWN_REALLOC, U_SPLICE, U_NONEMPTY, U_ACCEPTED, U_POSCNT, U_ENS_TERM
 src: ustr.c, obj.c
 enforce: spif_ustr_splice
-backend: sat,z3
-timeout: 300
+backend: kissat,sat
+timeout: 600
 flags: --slice-formula
 checks_off: --bounds-check --pointer-check --pointer-overflow-check --signed-overflow-check --conversion-check --div-by-zero-check --undefined-shift-check --pointer-primitive-check
 */
@@ -280,8 +280,8 @@ name: ustr_splice.head
 define: VP=ustr, VSTR_INST=8, VSTR_OWN_MEMCPY, VSTR_OWN_REALLOC, U_SPLICE, U_NONEMPTY, U_ACCEPTED, U_POSCNT, U_VIEW_HEAD
 src: ustr.c, obj.c
 enforce: spif_ustr_splice
-backend: sat,z3
-timeout: 300
+backend: kissat,sat
+timeout: 600
 flags: --slice-formula
 checks_off: --bounds-check --pointer-check --pointer-overflow-check --signed-overflow-check --conversion-check --div-by-zero-check --undefined-shift-check --pointer-primitive-check
 */
@@ -290,18 +290,18 @@ name: ustr_splice.ins
 define: VP=ustr, VSTR_INST=24, VSTR_OWN_MEMCPY, VSTR_OWN_REALLOC, U_SPLICE, U_NONEMPTY, U_ACCEPTED, U_POSCNT, U_VIEW_INS
 src: ustr.c, obj.c
 enforce: spif_ustr_splice
-backend: sat,z3
-timeout: 300
+backend: kissat,sat
+timeout: 600
 flags: --slice-formula
 checks_off: --bounds-check --pointer-check --pointer-overflow-check --signed-overflow-check --conversion-check --div-by-zero-check --undefined-shift-check --pointer-primitive-check
 */
 /*@unit
 name: ustr_splice.tail
-define: VP=ustr, VCAP=255, VSTR_INST=63, U_ENS_CORE, U_ENS_TERM, U_VIEW_HEAD, U_VIEW_INS, VSTR_OWN_MEMCPY, VSTR_OWN_REALLOC, U_SPLICE, U_NONEMPTY, U_ACCEPTED, U_POSCNT, U_VIEW_TAIL
+define: VP=ustr, VSTR_INST=32, VSTR_OWN_MEMCPY, VSTR_OWN_REALLOC, U_SPLICE, U_NONEMPTY, U_ACCEPTED, U_POSCNT, U_VIEW_TAIL
 src: ustr.c, obj.c
 enforce: spif_ustr_splice
-backend: sat,z3
-timeout: 300
+backend: kissat,sat
+timeout: 600
 flags: --slice-formula
 checks_off: --bounds-check --pointer-check --pointer-overflow-check --signed-overflow-check --conversion-check --div-by-zero-check --undefined-shift-check --pointer-primitive-check
 */
@@ -310,8 +310,8 @@ name: ustr_splice.negcnt
 define: VP=ustr, VSTR_INST=0, VSTR_OWN_MEMCPY, VSTR_OWN_REALLOC, U_SPLICE, U_NONEMPTY, U_NEGCNT, U_ENS_ACCEPT
 src: ustr.c, obj.c
 enforce: spif_ustr_splice
-backend: sat,z3
-timeout: 300
+backend: kissat,sat
+timeout: 600
 flags: --slice-formula
 checks_off: --bounds-check --pointer-check --pointer-overflow-check --signed-overflow-check --conversion-check --div-by-zero-check --undefined-shift-check --pointer-primitive-check
 */
@@ -329,8 +329,8 @@ name: ustr_splice_from_ptr.refused
 define: VP=ustr, U_SPLICE_FROM_PTR, U_NONEMPTY, U_REFUSED, U_POSCNT
 src: ustr.c, obj.c
 enforce: spif_ustr_splice_from_ptr
-backend: sat,z3
-timeout: 200
+backend: kissat,sat
+timeout: 600
 flags: --slice-formula
 */
 /*@unit
@@ -338,8 +338,8 @@ name: ustr_splice_from_ptr.safety
 define: VP=ustr, VSTR_INST=0, VSTR_OWN_MEMCPY, VSTR_OWN_REALLOC, U_SPLICE_FROM_PTR, U_NONEMPTY, U_ACCEPTED, U_POSCNT, U_ENS_CORE
 src: ustr.c, obj.c
 enforce: spif_ustr_splice_from_ptr
-backend: sat,z3
-timeout: 400
+backend: kissat,sat
+timeout: 600
 flags: --slice-formula
 */
 /*@unit
@@ -347,8 +347,8 @@ name: ustr_splice_from_ptr.term
 define: VP=ustr, VSTR_INST=2, VSTR_OWN_MEMCPY, VSTR_OWN_REALLOC, U_SPLICE_FROM_PTR, U_NONEMPTY, U_ACCEPTED, U_POSCNT, U_ENS_TERM
 src: ustr.c, obj.c
 enforce: spif_ustr_splice_from_ptr
-backend: sat,z3
-timeout: 300
+backend: kissat,sat
+timeout: 600
 flags: --slice-formula
 checks_off: --bounds-check --pointer-check --pointer-overflow-check --signed-overflow-check --conversion-check --div-by-zero-check --undefined-shift-check --pointer-primitive-check
 */
@@ -357,8 +357,8 @@ name: ustr_splice_from_ptr.head
 define: VP=ustr, VSTR_INST=8, VSTR_OWN_MEMCPY, VSTR_OWN_REALLOC, U_SPLICE_FROM_PTR, U_NONEMPTY, U_ACCEPTED, U_POSCNT, U_VIEW_HEAD
 src: ustr.c, obj.c
 enforce: spif_ustr_splice_from_ptr
-backend: sat,z3
-timeout: 300
+backend: kissat,sat
+timeout: 600
 flags: --slice-formula
 checks_off: --bounds-check --pointer-check --pointer-overflow-check --signed-overflow-check --conversion-check --div-by-zero-check --undefined-shift-check --pointer-primitive-check
 */
@@ -367,8 +367,8 @@ name: ustr_splice_from_ptr.ins
 define: VP=ustr, VSTR_INST=24, VSTR_OWN_MEMCPY, VSTR_OWN_REALLOC, U_SPLICE_FROM_PTR, U_NONEMPTY, U_ACCEPTED, U_POSCNT, U_VIEW_INS
 src: ustr.c, obj.c
 enforce: spif_ustr_splice_from_ptr
-backend: sat,z3
-timeout: 300
+backend: kissat,sat
+timeout: 600
 flags: --slice-formula
 checks_off: --bounds-check --pointer-check --pointer-overflow-check --signed-overflow-check --conversion-check --div-by-zero-check --undefined-shift-check --pointer-primitive-check
 */
@@ -377,8 +377,8 @@ name: ustr_splice_from_ptr.tail
 define: VP=ustr, VSTR_INST=32, VSTR_OWN_MEMCPY, VSTR_OWN_REALLOC, U_SPLICE_FROM_PTR, U_NONEMPTY, U_ACCEPTED, U_POSCNT, U_VIEW_TAIL
 src: ustr.c, obj.c
 enforce: spif_ustr_splice_from_ptr
-backend: sat,z3
-timeout: 300
+backend: kissat,sat
+timeout: 600
 flags: --slice-formula
 checks_off: --bounds-check --pointer-check --pointer-overflow-check --signed-overflow-check --conversion-check --div-by-zero-check --undefined-shift-check --pointer-primitive-check
 */
@@ -387,8 +387,8 @@ name: ustr_splice_from_ptr.negcnt
 define: VP=ustr, VSTR_INST=0, VSTR_OWN_MEMCPY, VSTR_OWN_REALLOC, U_SPLICE_FROM_PTR, U_NONEMPTY, U_NEGCNT, U_ENS_ACCEPT
 src: ustr.c, obj.c
 enforce: spif_ustr_splice_from_ptr
-backend: sat,z3
-timeout: 300
+backend: kissat,sat
+timeout: 600
 flags: --slice-formula
 checks_off: --bounds-check --pointer-check --pointer-overflow-check --signed-overflow-check --conversion-check --div-by-zero-check --undefined-shift-check --pointer-primitive-check
 */
@@ -486,6 +486,12 @@ __CPROVER_requires(cnt >= 0)
 #endif
 #ifdef U_NEGCNT
 __CPROVER_requires(cnt < 0)
+#endif
+#ifdef U_POSIDX
+__CPROVER_requires(idx >= 0)
+#endif
+#ifdef U_NEGIDX
+__CPROVER_requires(idx < 0)
 #endif
 /* path behaviours (their union is the whole precondition) */
 #ifdef U_REFUSED
